@@ -3,6 +3,8 @@ package db
 import (
 	"errors"
 	"fmt"
+	"os"
+	"path/filepath"
 	"strconv"
 	"strings"
 
@@ -27,7 +29,36 @@ var (
 	ErrVAANotFound = errors.New("requested VAA not found in store")
 )
 
+// removeEmptyLogFiles deletes value-log and memtable log files of length zero from the data
+// directory. badger creates such a file and only then sizes it; a process killed in between leaves
+// an empty file behind, which badger v3 then refuses to open ("Open existing file ... Create a new
+// file"), so the store would never start again. An empty log file holds no entry.
+func removeEmptyLogFiles(path string) error {
+	entries, err := os.ReadDir(path)
+	if err != nil {
+		if os.IsNotExist(err) {
+			return nil
+		}
+		return err
+	}
+	for _, e := range entries {
+		name := e.Name()
+		if e.IsDir() || !(strings.HasSuffix(name, ".vlog") || strings.HasSuffix(name, ".mem")) {
+			continue
+		}
+		if fi, err := e.Info(); err == nil && fi.Size() == 0 {
+			if err := os.Remove(filepath.Join(path, name)); err != nil {
+				return err
+			}
+		}
+	}
+	return nil
+}
+
 func Open(path string) (*Database, error) {
+	if err := removeEmptyLogFiles(path); err != nil {
+		return nil, fmt.Errorf("failed to clean up database directory: %w", err)
+	}
 	db, err := badger.Open(badger.DefaultOptions(path))
 	if err != nil {
 		return nil, fmt.Errorf("failed to open database: %w", err)
